@@ -1346,7 +1346,12 @@ impl Runner {
         let rec = json!({
             "e": "Obs", "kind": kind,
             "batch": self.batch.iter().map(|s| serde_json::to_value(s).unwrap()).collect::<Vec<_>>(),
-            "acts": self.batch.iter().map(|s| s.a.clone()).collect::<Vec<_>>(),
+            "acts": self.batch.iter().map(|s| match (s.a.as_str(), s.ok) {
+                ("MakeOpen", Some(false)) => "MakeFail".to_string(),
+                ("Gate", Some(false)) => "GateErr".to_string(),
+                _ => s.a.clone(),
+            }).collect::<Vec<_>>(),
+            "det": self.paused,
             "bconns": self.batch.iter().map(|s| s.c).collect::<Vec<_>>(),
             "srv": self.srv_state, "srvAtSignal": self.srv_at_signal,
             "sigFired": g.sig_fired, "sigSeq": g.sig_seq,
